@@ -388,7 +388,7 @@ def _precheck_loop(atom, f, first, second_iter):
                 return set()
         found = None
         for kind, lists in _KIND_LISTS.items():
-            def classify(lf, kind=kind, lists=lists):
+            def classify(lf, br=None, kind=kind, lists=lists):
                 if isinstance(lf, ast.Call) and isinstance(lf.func, ast.Name) and lf.func.id == "isinstance" and len(lf.args) == 2 \
                         and norm(lf.args[0]) == y and _names_class(atom, f, lf.args[1], kind):
                     return "K"
@@ -397,10 +397,16 @@ def _precheck_loop(atom, f, first, second_iter):
                     if isinstance(r, ast.Name) and r.id == coll:
                         return "S"
                     if isinstance(r, ast.Name) and ax is not None:
-                        try:
-                            r = ax.expand(r, hd)
-                        except Exception:
-                            pass
+                        r0 = r
+                        for at in (br, hd):
+                            if at is None:
+                                continue
+                            try:
+                                r = ax.expand(r0, at)
+                            except Exception:
+                                r = r0
+                            if not isinstance(r, ast.Name):
+                                break
                     if isinstance(r, ast.Attribute) and isinstance(r.value, ast.Name) and r.value.id == me and r.attr in lists:
                         return "C"
                 return None
@@ -414,11 +420,11 @@ def _precheck_loop(atom, f, first, second_iter):
                     except Exception:
                         pass
                 c_ok = isinstance(r, ast.Attribute) and isinstance(r.value, ast.Name) and r.value.id == me and r.attr in lists
-                if c_ok and known(g, n, classify, lambda a: a["K"], ["K"], start=hd):
+                if c_ok and known(g, n, classify, lambda a: a["K"], ["K"], start=hd, with_node=True):
                     found = kind
-            elif known(g, n, classify, lambda a: a["K"], ["K"], start=hd, expand_test=xt) \
-                    and known(g, n, classify, lambda a: not a["C"], ["C"], start=hd, expand_test=xt) \
-                    and known(g, n, classify, lambda a: not a["S"], ["S"], start=hd, expand_test=xt):
+            elif known(g, n, classify, lambda a: a["K"], ["K"], start=hd, expand_test=xt, with_node=True) \
+                    and known(g, n, classify, lambda a: not a["C"], ["C"], start=hd, expand_test=xt, with_node=True) \
+                    and known(g, n, classify, lambda a: not a["S"], ["S"], start=hd, expand_test=xt, with_node=True):
                 found = kind
         if found is None or kinds.get(coll, found) != found or (found in kinds.values() and coll not in kinds):
             return set()
